@@ -465,3 +465,37 @@ Proof.
     destruct (mj_default_rule _ _ _ Hnd_sub Er) as (sub' & medians' & v & H1 & H2 & H3 & H4).
     exists (map fst level), sub', medians', v. split; [exact E|]. split; [exact H1|]. split; [exact H2|]. split; [exact H3|exact H4].
 Qed.
+
+(* ---- the documented rule ("remove medians until they differ, then the highest new median wins") is not what
+   the loop does for three or more tied candidates: a candidate that fell strictly behind stays in the loop and
+   can overtake.  Five voters, grades 0..2:  A = 0,0,1,2,2   B = 0,1,1,1,1   C = 0,1,1,1,2  (all medians 1).
+   After one removal A has median 0 < 1 = B = C, yet A is elected. *)
+Definition mjw_cf : score_cfg := {| sc_fn := FMedianLow; sc_unscored := UNone; sc_min_count := 0%Z; sc_trunc := 0; sc_bottom := 0 |}.
+Definition mjw_ballot (x y z : Z) : sballot * Z :=
+  ([(1%positive, inject_Z x); (2%positive, inject_Z y); (3%positive, inject_Z z)], 1%Z).
+Definition mjw_votes : sprofile := [mjw_ballot 0 0 0; mjw_ballot 0 1 1; mjw_ballot 1 1 1; mjw_ballot 2 1 1; mjw_ballot 2 1 2].
+Definition mjw_sc : list (C * cscores) :=
+  [(1%positive, [(0, 2%Z); (1, 1%Z); (2, 2%Z)]); (2%positive, [(0, 1%Z); (1, 4%Z)]); (3%positive, [(0, 1%Z); (1, 3%Z); (2, 1%Z)])].
+Definition mjw_med : list (C * Q) := [(1%positive, 1); (2%positive, 1); (3%positive, 1)].
+Definition mjw_sub1 : list (C * cscores) := mj_remove mjw_sc mjw_med 1.
+Definition mjw_med1 : list (C * Q) := [(1%positive, 0); (2%positive, 1); (3%positive, 1)].
+
+Theorem mj_default_documented_refuted :
+  exists cf votes sc med tied c c' sub1 medians1 v v',
+    corrected_scores cf votes = inl sc /\ aggregate FMedianLow sc = inl med /\
+    get_n_best Qle_bool med 1 = [TieR tied] /\
+    majority_judgment false cf votes 1 = inl [Cand c] /\
+    mj_rounds (filter (fun cd : C * cscores => cmem (fst cd) tied) sc) sub1 /\
+    aggregate FMedianLow sub1 = inl medians1 /\
+    In (c, v) medians1 /\ In (c', v') medians1 /\ v < v'.
+Proof.
+  exists mjw_cf, mjw_votes, mjw_sc, mjw_med, [1%positive; 2%positive; 3%positive], 1%positive, 2%positive, mjw_sub1, mjw_med1, 0, 1.
+  split; [vm_compute; reflexivity|]. split; [vm_compute; reflexivity|]. split; [vm_compute; reflexivity|].
+  split; [vm_compute; reflexivity|]. split.
+  - apply (mjr_step mjw_sc mjw_med [1%positive; 2%positive; 3%positive] 1%Z mjw_sub1).
+    + vm_compute; reflexivity.
+    + vm_compute; reflexivity.
+    + lia.
+    + apply mjr_done.
+  - split; [vm_compute; reflexivity|]. split; [left; reflexivity|]. split; [right; left; reflexivity|reflexivity].
+Qed.
